@@ -517,7 +517,29 @@ class C11(Check):
                 if got != b[i].replace(" (", "(").strip():
                     out.append((i, got, b[i], "inline forest of the paragraph vs EmphSpec.specForest"))
             return out
-        return [j, Job("emphasis slice against the spec procedure", sl, corr=slice_corr, corr_is_spec=True)]
+        # the widened slice (EmphSlice2.C11_slice2): more ASCII punctuation, digits, Unicode white space / punctuation / letters
+        wide = ["*", "_", "*", "_", "**", "__", "***", "a", "b", "Z", "7", " ", " ", ".", ",", "#", "$", "%", "+", "-", "/", "=", "?", "@", "^", "{", "|", "}", "~", "(", ")", '"', "'",
+                "\u00a0", "\u2003", "\u3000", "\u202f", "¡", "«", "»", "—", "“", "”", "…", "‹", "、", "。", "「", "！", "é", "ß", "Ā", "ɏ", "α", "Ж", "あ", "日", "中"]
+        sl2 = []
+        while len(sl2) < n:
+            t = rng.choice("abXy") + "".join(rng.choice(wide) for _ in range(rng.randrange(1, 14 if rng.random() < 0.9 else 50)))
+            t = re.sub(" +", " ", t)
+            sl2.append((t.encode("utf-8"), ""))
+
+        def slice2_corr(cases):
+            a = run.harness("full", lines_of([(c + b"\n", "") for c, _ in cases]))
+            b = run.model("emphspec2", lines_of(cases))
+            out = []
+            for i in range(len(cases)):
+                if b[i] == "skip":
+                    continue
+                m = re.match(r"\(R 1 0 \d+ [0-9a-f]+ \(B \d+ \d+ \d+ 0 0 0 -?\d+(.*)\)\) M$", a[i])
+                got = m.group(1).replace(" (", "(").strip() if m else a[i]
+                if got != b[i].replace(" (", "(").strip():
+                    out.append((i, got, b[i], "inline forest of the paragraph vs EmphSpec2.specForest2"))
+            return out
+        return [j, Job("emphasis slice against the spec procedure", sl, corr=slice_corr, corr_is_spec=True),
+                Job("widened emphasis slice against the spec procedure", sl2, corr=slice2_corr, corr_is_spec=True)]
 
 
 reg(C11("C11"))
